@@ -7,7 +7,7 @@
    is now (after the fix commits e8e73fb and be0b187). *)
 From Coq Require Import List NArith ZArith Bool Arith.
 From GD Require Import C08.Token C08.TokSpec C08.TokLemmas C08.TokBounds C08.TokAgree
-  C08.Standards Gen.Gates C08.GatesDefs C08.GatesProofs C08.Names C08.NamesProofs C08.LitSpec C08.Literal C08.LitProofs C08.Callback.
+  C08.Standards Gen.Gates C08.GatesDefs C08.GatesProofs C08.Names C08.NamesProofs C08.LitSpec C08.Literal C08.LitProofs C08.Callback C08.LineSpec C08.ParseImpl C08.ParseProofs.
 Import ListNotations.
 Open Scope N_scope.
 
@@ -91,3 +91,21 @@ Theorem abort_stops_at_first : forall cb ls,
   fragment_run cb ls =
   match first_bad_from 1 ls with Some s => ([s], Some (inl s)) | None => ([], None) end.
 Proof. exact abort_stops_at_first_lemma. Qed.
+
+(* ---- field specification lines: the model of _GD_ParseFieldSpec and the
+   sixteen _GD_Parse* functions (ParseImpl.v: error register D->error that
+   _GD_SetError overwrites, parameters left as the memset zero, _GD_SetScalar
+   giving up on field codes once an error is pending) computes, for all 18
+   field types, every token list, every mode and every gate table, the entry or
+   suberror that the specification LineSpec.v states ---- *)
+Theorem spec_line_agrees :
+  forall (F : Type) fval ferange f_of_Z (f_zero : F) f_is_zero f_neg f_trunc_u f_trunc_i f_small cf tbl ped st toks,
+    (st <= 10)%nat ->
+    impl_line F fval ferange f_of_Z f_zero f_is_zero f_neg f_trunc_u f_trunc_i f_small cf tbl ped st toks =
+    spec_line F fval ferange f_of_Z f_zero f_is_zero f_neg f_trunc_u f_trunc_i f_small cf tbl ped st toks.
+Proof. exact impl_line_spec. Qed.
+
+(* and the gate table the parser uses is the Standards' *)
+Theorem parser_gate_table_is_standards :
+  forall g, match code_gate g with Some v => v | None => 0%nat end = spec_gate g.
+Proof. intro g. rewrite gates_agree_all. reflexivity. Qed.
